@@ -35,7 +35,8 @@ def build_world(parents, ranks, seed, names=None):
     for i in range(n):
         pid = i + 1
         comm = b"p%d" % pid if not names or names[i] is None else names[i]
-        w.spawn(pid, ppid=parents[i], comm=comm, start=1000 + 100 * ranks[i] + (seed % 7))
+        # (start times one clock tick apart: the finest difference the kernel can publish)
+        w.spawn(pid, ppid=parents[i], comm=comm, start=1000 + ranks[i] + (seed % 7))
     return w
 
 
@@ -360,6 +361,35 @@ def run_fault(arg):
     return _timed(_run_fault, arg, lambda e, a: {"n": 0, "bad": [("does-not-terminate", "%s (%r)" % (e, a))]})
 
 
+def run_deep(arg):
+    """scale: a chain of processes `depth` levels deep with a side branch half-way (depth beyond the interpreter's recursion
+    limit), and a bushy node with `depth` direct children"""
+    seed, depth = arg
+    import psutil
+    w = World(ncpus=1, mypid=9999)
+    w.spawn(1, ppid=0, comm=b"init", start=10)
+    for i in range(2, depth + 1):
+        w.spawn(i, ppid=i - 1, comm=b"c%d" % i, start=10 + i)
+    side = depth + 1
+    w.spawn(side, ppid=depth // 2, comm=b"side", start=10 + depth + 5)
+    for j in range(depth):
+        w.spawn(side + 1 + j, ppid=side, comm=b"leaf", start=10 + depth + 10 + j)
+    use_world(w)
+    w.logging = False
+    bad = []
+    got = outcome(lambda: sorted(c.pid for c in psutil.Process(1).children(recursive=True)))
+    want = list(range(2, side + depth + 1))
+    if got != ("ok", want):
+        bad.append(("deep-chain:children-recursive", "root of a %d-deep chain: %s" % (depth, got[:2] if got[0] != "ok" else "got %d processes, expected %d" % (len(got[1]), len(want)))))
+    got = outcome(lambda: [c.pid for c in psutil.Process(depth).parents()])
+    if got != ("ok", list(range(depth - 1, 0, -1))):
+        bad.append(("deep-chain:parents", "leaf of a %d-deep chain: %s" % (depth, got[:2] if got[0] != "ok" else "chain of %d, expected %d" % (len(got[1]), depth - 1))))
+    got = outcome(lambda: sorted(c.pid for c in psutil.Process(side).children()))
+    if got != ("ok", list(range(side + 1, side + depth + 1))):
+        bad.append(("wide-node:children", "node with %d children: %s" % (depth, got[:2] if got[0] != "ok" else len(got[1]))))
+    return bad, 0
+
+
 def fault_part(ctx):
     jobs = []
     for parents in ([0, 1, 1, 2], [0, 1, 2, 3], [0, 1, 1, 1]):
@@ -425,6 +455,10 @@ def run(ctx):
             viols.append({"cause": cause, "msg": msg, "case": {"parents": wd[0], "ranks": wd[1], "after_history": [wd[3], wd[4]]}})
     nfault, fv = fault_part(ctx)
     viols += fv
+    for depth in ((1500, 300) if not ctx.alt else (1200,)):
+        bad, _ = _timed(run_deep, (ctx.seed, depth), _hang_pair)
+        for cause, msg in bad:
+            viols.append({"cause": cause, "msg": msg, "case": {"deep": depth}})
     cov = {"fault_runs": nfault, "after_history_worlds": len(hist), "evaluations": (len(worlds) * n * 4) + len(reused) * 4 + len(hist) * 12, "distinct_nontrivial": len(worlds) + len(reused) - 1,
            "rule": "one world = one assignment of parent pids x one weak ordering of start times for N=%d processes; in each world every "
                    "process calls children(), children(recursive=True), parent(), parents() (evaluations = calls); distinct_nontrivial = "
@@ -443,6 +477,9 @@ def replay(ctx, case):
         f = case["fault"]
         r = run_fault((f[0], ctx.seed, f[1], f[2], f[3]))
         return {"violated": bool(r["bad"]), "viols": r["bad"]}
+    if "deep" in case:
+        bad, _ = _timed(run_deep, (ctx.seed, case["deep"]), _hang_pair)
+        return {"violated": bool(bad), "viols": bad}
     if "after_history" in case:
         bad, _ = run_after_history((case["parents"], case["ranks"], ctx.seed, case["after_history"][0], case["after_history"][1]))
         return {"violated": bool(bad), "viols": bad}
